@@ -22,7 +22,9 @@ EXTENDS Integers, Sequences, FiniteSets, TLC
 CONSTANTS Callers,      \* set of caller ids
           MaxMsgs,      \* terminal-originated reply-bearing messages
           CapMsg, CapActive, CapComplete, CapOp,
-          Protocol,     \* "asis" | "fixed"
+          Protocol,     \* "asis" | "fixed" | "fixed2" (fixed + the caller's own deadline, commit c4130fb)
+          TermReads,    \* BOOLEAN: FALSE = the terminal never reads, so a command write to it blocks for as long as it stays connected
+          TermCloses,   \* BOOLEAN: the terminal eventually disconnects (fairness); FALSE = it may stay connected for ever
           TermResponds, \* BOOLEAN: the terminal may answer commands
           SerialMod,    \* the platform serial wraps at this modulus (65536 in the code)
           Identity      \* BOOLEAN: a time-out / write-failure completion names its request, not only the serial
@@ -40,7 +42,8 @@ VARIABLES
 vars == <<pcR, curR, joined, pcW, curW, record, pser, timers, msgChan, activeChan, completeChan, opChan,
           stopClosed, connClosed, dataClosed, pcM, curM, registry, pcK, result, cmdSeq, termOpen, netIn, netOut, sent, seen, panicked>>
 
-Fixed == Protocol = "fixed"
+Fixed == Protocol \in {"fixed", "fixed2"}
+Deadline == Protocol = "fixed2"
 Init ==
   /\ pcR = "read" /\ curR = <<>> /\ joined = FALSE
   /\ pcW = "select" /\ curW = <<>> /\ record = <<>> /\ pser = 0
@@ -98,7 +101,12 @@ R_CloseData == /\ pcR = "closeData" /\ dataClosed' = TRUE /\ pcR' = "done"
 (* W: the writer *)
 WriteFails == connClosed                 \* writes to a socket the server closed fail
 WriteMayFail == ~termOpen                \* writes to a socket the peer closed may fail (RST) or vanish
-Deliver(k, kind) == /\ result' = [result EXCEPT ![k] = kind] /\ pcK' = [pcK EXCEPT ![k] = "done"]
+\* (a caller that already gave up is not waiting any more: with the buffered, never closed reply channel of "fixed2" the
+\*  late result is simply dropped)
+Deliver(k, kind) == IF pcK[k] = "wait" THEN /\ result' = [result EXCEPT ![k] = kind] /\ pcK' = [pcK EXCEPT ![k] = "done"]
+                    ELSE UNCHANGED <<pcK, result>>
+\* a command write to a terminal that does not read blocks (nothing else the writer could do meanwhile)
+Blocked == ~TermReads /\ termOpen /\ ~connClosed
 
 W_SelStop == /\ pcW = "select" /\ stopClosed
              /\ IF Fixed /\ (DOMAIN record # {} \/ activeChan # <<>>)
@@ -121,7 +129,7 @@ W_SelActive == /\ pcW = "select" /\ activeChan # <<>> /\ pser \notin DOMAIN reco
                   /\ pcW' = "actWrite"
                /\ UNCHANGED <<pcR, curR, joined, timers, msgChan, completeChan, opChan, stopClosed, connClosed, dataClosed, pcM, curM, registry, pcK, result, termOpen, netIn, netOut, sent, seen, panicked>>
 W_ActWrite == /\ pcW = "actWrite"
-              /\ \/ /\ ~WriteFails                           \* written (or swallowed by a dead peer): arm the timer
+              /\ \/ /\ ~WriteFails /\ ~Blocked               \* written (or swallowed by a dead peer): arm the timer
                     /\ netOut' = IF termOpen THEN Append(netOut, [t |-> "cmd", seq |-> curW.seq]) ELSE netOut
                     /\ timers' = timers \cup {[seq |-> curW.seq, st |-> "sleep", k |-> curW.k]}
                     /\ pcW' = "select" /\ UNCHANGED <<record, pcK, result>>
@@ -191,6 +199,10 @@ T_Send == \E t \in timers :
 K_Call(k) == /\ pcK[k] = "idle" /\ Len(opChan) < CapOp
              /\ opChan' = Append(opChan, [op |-> "route", k |-> k]) /\ pcK' = [pcK EXCEPT ![k] = "wait"]
              /\ UNCHANGED <<pcR, curR, joined, pcW, curW, record, pser, timers, msgChan, activeChan, completeChan, stopClosed, connClosed, dataClosed, pcM, curM, registry, result, cmdSeq, termOpen, netIn, netOut, sent, seen, panicked>>
+\* "fixed2": SendActiveMessage gives up at its own deadline (time-out + 1 s), whatever the connection is doing
+K_Deadline(k) == /\ Deadline /\ pcK[k] = "wait"
+                 /\ result' = [result EXCEPT ![k] = "deadline"] /\ pcK' = [pcK EXCEPT ![k] = "done"]
+                 /\ UNCHANGED <<pcR, curR, joined, pcW, curW, record, pser, timers, msgChan, activeChan, completeChan, opChan, stopClosed, connClosed, dataClosed, pcM, curM, registry, cmdSeq, termOpen, netIn, netOut, sent, seen, panicked>>
 M_Exec == /\ pcM = "idle" /\ opChan # <<>>
           /\ LET o == Head(opChan) IN
              /\ opChan' = Tail(opChan)
@@ -218,7 +230,7 @@ Next == /\ ~panicked
            \/ R_Read \/ R_JoinSend \/ R_Enq \/ R_LeaveSend \/ R_CloseStop \/ R_ConnClose \/ R_CloseData
            \/ W_SelStop \/ W_Drain \/ W_SelActive \/ W_ActWrite \/ W_FailSend \/ W_SelComplete \/ W_SelMsg \/ W_SelfSend
            \/ T_Fire \/ T_Check \/ T_Send
-           \/ M_Exec \/ M_Unblock \/ \E k \in Callers : K_Call(k)
+           \/ M_Exec \/ M_Unblock \/ \E k \in Callers : K_Call(k) \/ K_Deadline(k)
 
 \* fairness: every process keeps running; the terminal eventually closes (a session ends)
 Fairness == /\ WF_vars(R_Read) /\ WF_vars(R_JoinSend) /\ WF_vars(R_Enq) /\ WF_vars(R_LeaveSend) /\ WF_vars(R_CloseStop)
@@ -227,7 +239,8 @@ Fairness == /\ WF_vars(R_Read) /\ WF_vars(R_JoinSend) /\ WF_vars(R_Enq) /\ WF_va
             /\ SF_vars(W_SelComplete) /\ SF_vars(W_SelMsg) /\ WF_vars(W_SelfSend)
             /\ WF_vars(T_Fire) /\ WF_vars(T_Check) /\ WF_vars(T_Send)
             /\ WF_vars(M_Exec) /\ WF_vars(M_Unblock)
-            /\ WF_vars(D_Close)
+            /\ (TermCloses => WF_vars(D_Close))
+            /\ \A k \in Callers : WF_vars(K_Deadline(k))
 Spec == Init /\ [][Next]_vars /\ Fairness
 
 -----------------------------------------------------------------------------
